@@ -228,7 +228,7 @@ func c17Exec(w *W, tree *Node, consts, vals map[string]interface{}, opts OptSet)
 		names = append(names, k)
 	}
 	sort.Strings(names)
-	cfg := CaseCfg{Opts: opts, Consts: consts, VarNames: names}
+	cfg := CaseCfg{Opts: opts, Consts: consts, VarNames: names, Custom: stdCustom}
 	cc := buildConfig(cfg, nil)
 	e, co := compileGuard(cc, tree.Prefix())
 	w.Evals++
@@ -416,6 +416,13 @@ func c17Mismatch(w *W, r *rand.Rand, la, lb int) {
 	expectErr(Op("in", TBool, Lit("e10"), ia.lit()), nil, "membership of a string in an int list")
 	expectErr(Op("in", TBool, Lit(int64(10)), sb.lit()), nil, "membership of an int in a string list")
 	expectErr(Op("in", TBool, Lit(true), ia.lit()), nil, "membership of a boolean")
+	// a non-constant probe of the wrong element type against a constant list (literal and ConstantMap constant) of this length
+	expectErr(Op("in", TBool, Var("v", TAny), ia.lit()), map[string]interface{}{"v": "e10"}, "membership of a string variable in a constant int list")
+	expectErr(Op("in", TBool, Var("v", TAny), sb.lit()), map[string]interface{}{"v": int64(10)}, "membership of an int variable in a constant string list")
+	expectErr(Op("in", TBool, Var("v", TAny), ia.lit()), map[string]interface{}{"v": true}, "membership of a boolean variable in a constant int list")
+	expectErr(Op("not", TBool, Op("in", TBool, Op("cs", TStr, Var("v", TAny)), ia.lit())), map[string]interface{}{"v": "e10"}, "membership of a computed string in a constant int list")
+	expectErr(Op("overlap", TBool, Var("A", TAny), sb.lit()), map[string]interface{}{"A": ia.ints}, "overlap of an int list variable with a constant string list")
+	expectErr(Op("overlap", TBool, sb.lit(), Var("A", TAny)), map[string]interface{}{"A": ia.ints}, "overlap of a constant string list with an int list variable")
 	expectErr(Op("overlap", TBool, ia.lit(), Lit(int64(1))), nil, "overlap with a scalar")
 	expectErr(Op("overlap", TBool, Var("S", TAny), ia.lit()), map[string]interface{}{"S": map[int64]struct{}{10: {}}}, "overlap with a pre-built set")
 	for _, l := range []c17List{ia, sb} {
